@@ -159,7 +159,7 @@ Extraction "model.ml"
   check_monotone
   check_inverse
   check_iso
-  wf_graph
+  EssSpecM.wf_graph
   dist_matrix
   eccs_f
   eccs_b
@@ -185,7 +185,7 @@ Extraction "model.ml"
   run_logged_dm
   sort_pipeline
   sort_spec
-  boundaries
+  SortM.boundaries
   part_id
   codec_encode
   codec_decode
@@ -196,7 +196,7 @@ Extraction "model.ml"
   flush_batch
   batch_size_par
   batch_size_seq
-  ksort
+  SortM.ksort
   kdedup
   sdedup
   kleb
@@ -204,14 +204,14 @@ Extraction "model.ml"
   run_parts
   xop_spec
   xop_nout
-  ksort
+  XformM.ksort
   ksortd
   symmetrize_sorted_par
   symmetrize_sorted_par_lenders
   phi_transpose
   transpose_labeled_spec
-  boundaries
-  wf_graph
+  XformM.boundaries
+  XformM.wf_graph
   wf_lgraph
   below
   graph_arcs
